@@ -188,12 +188,14 @@ pub fn base_amounts() -> Vec<AmountT> {
     let pos: Vec<AmountT> = {
         #[cfg(not(feature = "dec"))]
         {
-            vec![1.0, 2.5, 0.1, 3.0, 7.25, 1e-3, 1234.5678, 0.30000000000000004, 1.2345678901234567, 98765.43210987654, 1e6, 6.02214076e3, 12.0, 36.0, 5280.0]
+            vec![1.0, 2.5, 0.1, 3.0, 7.25, 1e-3, 1234.5678, 0.30000000000000004, 1.2345678901234567, 98765.43210987654, 1e6, 6.02214076e3, 12.0, 36.0, 5280.0,
+                 1e15, 9007199254740993.0, 1e-12, 3.3e100, 7.7e-100, 4503599627370497.5, 1e22]
         }
         #[cfg(feature = "dec")]
         {
             use quantities::{Dec, Decimal};
-            vec![Dec!(1), Dec!(2.5), Dec!(0.1), Dec!(3), Dec!(7.25), Dec!(0.001), Dec!(1234.5678), Dec!(0.300000000000000004), Dec!(1.234567890123456789), Dec!(98765.43210987654321), Dec!(1000000), Dec!(6022.14076), Dec!(12), Dec!(36), Dec!(5280)]
+            vec![Dec!(1), Dec!(2.5), Dec!(0.1), Dec!(3), Dec!(7.25), Dec!(0.001), Dec!(1234.5678), Dec!(0.300000000000000004), Dec!(1.234567890123456789), Dec!(98765.43210987654321), Dec!(1000000), Dec!(6022.14076), Dec!(12), Dec!(36), Dec!(5280),
+                 Dec!(1000000000000000), Dec!(9007199254740993), Dec!(0.000000000001), Dec!(123456789012.123456789012345678), Dec!(0.000000000000000007)]
         }
     };
     v.push(quantities::AMNT_ZERO);
